@@ -94,8 +94,14 @@ def sameDocs (a b : List String) : Bool := a.mergeSort leStr == b.mergeSort leSt
 /-- directory: the implementation's documents (rendered) are exactly the expected ones -/
 def checkDir (expected impl : List String) : Bool := sameDocs expected impl
 
+/-- some regular member's header announces another size than the data the archive holds for it -/
+def lies (ms : List Member) : Bool := ms.any fun m => m.kind = .reg ∧ m.size ≠ m.content.length
+
 /-- archive: the implementation did not crash and its documents are exactly the expected ones -/
 def checkArchive (expected : List String) (implClass : String) (impl : List String) : Bool :=
   (implClass == "ok") && sameDocs expected impl
+
+/-- archive whose headers lie about a member's size: indexing must come back (with the index or an error) -/
+def checkLyingArchive (implClass : String) : Bool := implClass == "ok" || implClass == "err"
 
 end ZoektModel.C15
